@@ -29,7 +29,9 @@ pub const OC_ERR_OTHER: usize = 4;
 pub const OC_PANIC: usize = 5;
 pub const OC_FATAL: usize = 6; // abort / stack overflow / hang / runaway (recorded by the supervisor)
 pub const OC_RESOURCE: usize = 7; // refused allocation (inconclusive)
-pub const OC_NAMES: [&str; OUTCOMES] = ["end", "err:InvalidData", "err:UnexpectedEof", "err:InvalidInput", "err:other", "panic", "fatal", "resource-limit"];
+pub const OC_SKIPPED: usize = 8; // not run: the entry point hung repeatedly before in this run (see `ledger`)
+pub const OC_NAMES: [&str; OUTCOMES] =
+    ["end", "err:InvalidData", "err:UnexpectedEof", "err:InvalidInput", "err:other", "panic", "fatal", "resource-limit", "skipped-after-repeated-hang"];
 
 pub struct ProbeOut {
     pub slot: usize,
@@ -49,6 +51,7 @@ pub struct BatchOut {
     pub max_probe_cpu_us: u64,
     pub max_valid_cpu_us: u64,
     pub max_valid_debug_call_us: u64,
+    pub max_valid_by_kind: Vec<u64>,
     pub growth_refused: u64,
     pub forks: u64,
     pub notes: Vec<String>,
@@ -56,6 +59,8 @@ pub struct BatchOut {
 
 pub struct Limits {
     pub cpu_budget_s: f64,
+    /// only for messages: the short budget a probe of this batch may have run under
+    pub short_budget_s: f64,
     pub rlimit_as: u64,
 }
 
@@ -197,10 +202,22 @@ pub fn run_batch(
         let sigprof = libc::WIFSIGNALED(status) && libc::WTERMSIG(status) == libc::SIGPROF;
         if sigprof {
             out.matrix[slot][OC_FATAL] += 1;
+            let in_debug = sh.in_debug_call.load(Relaxed) != 0;
+            let short = sh.short_budget.load(Relaxed) != 0;
+            if !in_debug {
+                // expensive hang: enter it into the run-wide ledger that bounds the total cost of hangs
+                crate::ledger::record_hang(&what);
+            }
             let sig = format!("hang:{what}");
             if !seen_sigs.contains(&sig) {
                 seen_sigs.push(sig.clone());
-                let b = if what.ends_with("debug-fmt") { "its Debug-call CPU budget (debug_budget_s)".to_string() } else { format!("{} s CPU", limits.cpu_budget_s) };
+                let b = if in_debug {
+                    "its Debug-call CPU budget (debug_budget_s)".to_string()
+                } else if short {
+                    format!("{} s CPU (short budget: this entry point hung at least {} times before in this run)", limits.short_budget_s, crate::ledger::FULL)
+                } else {
+                    format!("{} s CPU", limits.cpu_budget_s)
+                };
                 out.violations.push((sig, format!("probe burned more than {b} without returning (SIGPROF): {long}"), wit));
             }
         } else if rk != 0 {
@@ -252,5 +269,6 @@ pub fn run_batch(
     out.max_probe_cpu_us = sh.max_probe_cpu_us.load(Relaxed);
     out.max_valid_cpu_us = sh.max_valid_cpu_us.load(Relaxed);
     out.max_valid_debug_call_us = sh.max_valid_debug_call_us.load(Relaxed);
+    out.max_valid_by_kind = sh.max_valid_by_kind.iter().map(|a| a.load(Relaxed)).collect();
     out
 }
